@@ -85,7 +85,7 @@ type LiveView struct {
 }
 
 type CntView struct {
-	Key                                  int
+	Key                               int
 	Pass, Block, Done, Err, Rt, Gauge int64
 }
 
@@ -601,29 +601,36 @@ func Coq(c *Case, obs []Obs) string {
 	keys = append(keys, "(-1)")
 	for i, o := range c.Ops {
 		ob := obs[i]
+		put := func(s string) {
+			if ob.Escaped != "" {
+				// a panic reached the caller: an observation the model never produces
+				s = "REscaped"
+			}
+			os_ = append(os_, s)
+		}
 		switch o.Kind {
 		case "entry":
 			ops = append(ops, fmt.Sprintf("OEntry %d %s %d %d %s %d %s", o.Res, emit.B(o.Inb), o.Batch, o.Flag, emit.ListZ(o.Args), o.Chain, emit.Z(int64(ob.Pick))))
 			if ob.Kind == "blocked" {
-				os_ = append(os_, fmt.Sprintf("RBlocked %s %s %s", emit.Z(int64(ob.Ctx)), coqBerr(ob.B), coqCalls(ob.Calls)))
+				put(fmt.Sprintf("RBlocked %s %s %s", emit.Z(int64(ob.Ctx)), coqBerr(ob.B), coqCalls(ob.Calls)))
 			} else {
-				os_ = append(os_, fmt.Sprintf("REntered %d %s %s", ob.E, emit.Z(int64(ob.Ctx)), coqCalls(ob.Calls)))
+				put(fmt.Sprintf("REntered %d %s %s", ob.E, emit.Z(int64(ob.Ctx)), coqCalls(ob.Calls)))
 			}
 		case "exit":
 			ops = append(ops, fmt.Sprintf("OExit %s %s", emit.Z(int64(o.E)), emit.Z(o.Err)))
-			os_ = append(os_, "RCalls "+coqCalls(ob.Calls))
+			put("RCalls " + coqCalls(ob.Calls))
 		case "trace":
 			ops = append(ops, fmt.Sprintf("OTrace %s %s", emit.Z(int64(o.E)), emit.Z(o.Err)))
-			os_ = append(os_, "RNone")
+			put("RNone")
 		case "callee":
 			ops = append(ops, fmt.Sprintf("OCallee %s %s", emit.Z(int64(o.E)), emit.Z(o.Addr)))
-			os_ = append(os_, "RNone")
+			put("RNone")
 		case "whenexit":
 			ops = append(ops, fmt.Sprintf("OWhenExit %s %d %s", emit.Z(int64(o.E)), o.HID, map[string]string{"ok": "HOk", "err": "HErr", "panic": "HPanic"}[o.HB]))
-			os_ = append(os_, "RNone")
+			put("RNone")
 		case "tick":
 			ops = append(ops, fmt.Sprintf("OTick %d", o.Dt))
-			os_ = append(os_, "RNone")
+			put("RNone")
 		case "snap":
 			ops = append(ops, "OSnap "+emit.List(keys))
 			var lv, cn, rt []string
@@ -636,7 +643,7 @@ func Coq(c *Case, obs []Obs) string {
 			for i := range ob.Ret {
 				rt = append(rt, coqBerr(&ob.Ret[i]))
 			}
-			os_ = append(os_, fmt.Sprintf("RSnap %s %s %s", emit.List(lv), emit.List(cn), emit.List(rt)))
+			put(fmt.Sprintf("RSnap %s %s %s", emit.List(lv), emit.List(cn), emit.List(rt)))
 		}
 	}
 	return fmt.Sprintf("Case %d %s\n %s\n %s", c.ID, emit.List(chs), emit.List(ops), emit.List(os_))
